@@ -107,6 +107,11 @@ pub struct Gen<'c> {
     /// loop nesting (limits nested loops)
     loop_depth: u32,
     in_const: bool,
+    /// sabotage (C07): index of the typed expression site to fill with a value of another type
+    pub sab: Option<u32>,
+    /// number of sabotage sites seen so far (sites where the context fixes the expected type)
+    pub sab_seen: u32,
+    pub sab_desc: Option<String>,
 }
 
 pub const SCALAR_TYS: [Ty; 12] = [
@@ -157,6 +162,9 @@ impl<'c> Gen<'c> {
             next_tag: 1,
             budget,
             loop_depth: 0,
+            sab: None,
+            sab_seen: 0,
+            sab_desc: None,
             in_const: false,
         }
     }
@@ -750,6 +758,16 @@ impl<'c> Gen<'c> {
     /// Does a generic enum ctor / needs-context construct appear?  In non-Direct contexts
     /// we only use expressions whose type is self-evident.
     pub fn expr(&mut self, ty: &Ty, depth: u32, fix: Fix) -> Expr {
+        if fix == Fix::Direct && *ty != Ty::Unit && !matches!(ty, Ty::Param(_)) {
+            // a site whose context fixes the expected type: a value of another kind of type is ill-typed here
+            self.sab_seen += 1;
+            if self.sab == Some(self.sab_seen - 1) && self.sab_desc.is_none() {
+                // unmistakable spellings, so that the caller can check that the value survived into the program text
+                let (v, text) = if *ty == Ty::Str { (V::F32(7.25), "7.25f32") } else { (V::Str("zz_sab".into()), "\"zz_sab\"") };
+                self.sab_desc = Some(format!("a value of type `{}` is expected at this place; `{text}` was put there", ty_name_for_desc(&self.prog, ty)));
+                return Expr::Lit(Lit { v, text: text.to_string() });
+            }
+        }
         if fix != Fix::Direct && self.needs_direct(ty) {
             // types whose constructors leave type arguments open get their type from an
             // annotated block-local
@@ -1651,6 +1669,22 @@ impl<'c> Gen<'c> {
         self.prog.funcs[idx].body = Block { stmts, tail };
     }
 
+    /// Generate with sabotage target `target`; returns the program, the number of sabotage
+    /// sites and the description of the sabotage (None if the target was not reached).
+    pub fn program_sabotaged(mut self, main_ret_choices: &[Ty], target: Option<u32>) -> (Program, u32, Option<String>) {
+        self.sab = target;
+        self.gen_decls();
+        let mr = main_ret_choices[self.c.below(main_ret_choices.len())].clone();
+        let with_args = self.prof.allow_main_args && mr.is_scalar() && self.c.chance(128);
+        let params = if with_args { vec![("a".to_string(), mr.clone()), ("b".to_string(), mr.clone())] } else { vec![] };
+        self.gen_signatures(mr, params);
+        let n = self.prog.funcs.len();
+        for i in 0..n {
+            self.gen_body(i);
+        }
+        (self.prog, self.sab_seen, self.sab_desc)
+    }
+
     pub fn program(mut self, main_ret_choices: &[Ty]) -> Program {
         self.gen_decls();
         let mr = main_ret_choices[self.c.below(main_ret_choices.len())].clone();
@@ -1662,6 +1696,18 @@ impl<'c> Gen<'c> {
             self.gen_body(i);
         }
         self.prog
+    }
+}
+
+fn ty_name_for_desc(p: &Program, t: &Ty) -> String {
+    match t {
+        Ty::Rec(i, _) | Ty::Enum(i, _) => p.decls.get(*i).map(|d| d.name().to_string()).unwrap_or_else(|| "?".into()),
+        Ty::Opt(t) => format!("{}?", ty_name_for_desc(p, t)),
+        Ty::List(t) => format!("List[{}]", ty_name_for_desc(p, t)),
+        Ty::Anon(_) => "anonymous record".into(),
+        Ty::Result(..) => "Result[..]".into(),
+        Ty::Verdict(..) => "Verdict[..]".into(),
+        other => ty_short(other),
     }
 }
 
